@@ -176,6 +176,24 @@ theorem find_code (w : Wrapper) (hw : w ∈ FindShape.wrappers) (root : Root) (f
   · rw [findW_eq w (hc w hw), find_bfs]
   · rw [findW_eq w (hc w hw), (find_unlimited root filt h).1]
 
+/-- the same member by member, and **each once**: an entity is returned by an extracted search method iff it
+passes the filter and lies at a depth `d ≤ limit` below the root (counted as the code counts), and with
+unique ids no entity is returned twice (any limit, also `None`) -/
+theorem find_mem_once_code (w : Wrapper) (hw : w ∈ FindShape.wrappers) (root : Root) (filt : Node → Bool) :
+    (∀ (limit : Nat) (x : Node), (∃ l, findW w root filt (some limit) = .ok l ∧ x ∈ l) ↔
+        filt x = true ∧ ∃ r ∈ root.members, ∃ i, AtDepth i r x ∧ i + root.base ≤ limit) ∧
+    (∀ limit : Option Nat, (keysL root.members).Nodup →
+        ∃ l, findW w root filt limit = .ok l ∧ (l.map Node.key).Nodup) := by
+  have hc : ∀ w ∈ FindShape.wrappers, w.Canonical := by decide
+  refine ⟨fun limit x => ?_, fun limit h => ⟨_, findW_eq w (hc w hw) root filt limit, find_once root filt limit h⟩⟩
+  rw [← find_mem, findW_eq w (hc w hw)]
+  constructor
+  · rintro ⟨l, hl, hx⟩
+    cases hl
+    exact hx
+  · intro hx
+    exact ⟨_, rfl, hx⟩
+
 /-- `Section.find_related` as extracted: for a top-level section the section and its children; for a
 section below `p`: `p`, the children of `p` without the section itself, then the section and its children
 (filtered, in this order) -/
